@@ -557,7 +557,15 @@ Definition handle (f : fs) (root : path) (follow show_index : bool) (accept : st
         if path_prefix root n then inl (resolve f n) else inr tt
       else
         match resolve f unresolved with
-        | RP_ok p => if path_prefix root p then inl (RP_ok p) else inr tt
+        | RP_ok p =>
+            if path_prefix root p then
+              (* fix 706b3e0: `if file_path.resolve() != file_path: raise ValueError` — the second
+                 resolve() may itself raise (RuntimeError / ValueError -> 404) *)
+              match resolve f p with
+              | RP_ok p2 => if path_eqb p2 p then inl (RP_ok p) else inr tt
+              | r => inl r
+              end
+            else inr tt
         | r => inl r
         end in
     match checked with
